@@ -294,6 +294,12 @@ func (e *Env) Judge(p *Pred, o *Obs, cfg BuildCfg, extCause string) []Violation 
 		vs = append(vs, Violation{"crash", "crash " + crashSite(o.Res.Stderr+o.Res.Stdout, c), "grog crashed: " + c})
 		return vs
 	}
+	if o.Res.Signaled && o.Res.Exit == 137 && !o.Res.TimedOut {
+		// SIGKILL from outside (the harness kills only after a time-out, a plan's kill action is
+		// not used with Judge): out-of-memory killer or another process on the machine. Says
+		// nothing about the property; the caller abandons the history.
+		return []Violation{{"external-kill", "external-kill", "grog was killed by a SIGKILL that neither grog nor the harness sent"}}
+	}
 	if o.Res.TimedOut {
 		k := "slow"
 		if o.Res.Hang {
